@@ -2,9 +2,9 @@ SPECIFICATION Spec
 CONSTANTS
   NSlots = 3
   InitCap = 4
-  MaxTracks = 6
+  MaxTracks = 9
   MaxSec = 2
-  MaxIter = 4
+  MaxIter = 6
   Charge = TRUE
   MaxPrim = 2
   MaxE = 3
